@@ -606,10 +606,24 @@ def main_replay(engine, path):
 
 
 def main_digests(engine, m, tier, verif_seed):
+    """Digests of the first m runs; with VERIF_EXTRA_RUNS=start:count also runs that slice.  Violations seen in any of
+    these runs are printed as `VIOL <json>` lines (used by engines whose sweep doubles as a batch in another mode)."""
     engine.prepare(tier)
     out = {}
-    for k in range(m):
+    ks = list(range(m))
+    extra = os.environ.get("VERIF_EXTRA_RUNS")
+    if extra:
+        a, b = extra.split(":")
+        ks += list(range(int(a), int(a) + int(b)))
+    known = load_known(engine.prop)
+    for k in ks:
         r = run_one(engine, seed=tapemod.sub_seed(verif_seed, engine.prop, k))
-        out[str(k)] = r["digest"]
+        if k < m:
+            out[str(k)] = r["digest"]
+        for v in r["violations"]:
+            e = match_known(v, known)
+            print("VIOL " + json.dumps({"k": k, "cls": v["cls"], "site": v["site"], "detail": v["detail"][:1200],
+                                        "known": e["what"] if e else None}))
+    print("RUNS " + json.dumps(len(ks)))
     print("DIGESTS " + json.dumps(out))
     sys.exit(0)
